@@ -308,7 +308,7 @@ def case(ctx, rng, idx, state):
 if __name__ == "__main__":
     harness.main(
         PROP, "exploration", case, setup_fn=setup,
-        tiers=dict(quick=dict(cases=24, shards=8, time=300), thorough=dict(cases=640, shards=16, time=900)),
+        tiers=dict(quick=dict(cases=24, shards=8, time=900), thorough=dict(cases=640, shards=16, time=3000)),
         rule="random k.p models H(x)=sum C_a x^a (+ A cos(q.x+phi)), Hermitian complex coefficients, degree 1-3, 1-4 "
              "bands, box given by kmax (0.02-5) / diagonal, tetragonal, hexagonal, fcc, bcc, triclinic recip_lattice / "
              "triclinic real_lattice (reciprocal vectors 0.2-8 1/A), "
